@@ -2,3 +2,12 @@ package vprog
 
 // nonTestHelper is a helper frame living in a non-test source file (C11 call shapes).
 func nonTestHelper(call func()) { call() }
+
+// nonTestDeep puts n non-test frames between the test function and the call.
+func nonTestDeep(n int, call func()) {
+	if n <= 0 {
+		call()
+		return
+	}
+	nonTestDeep(n-1, call)
+}
